@@ -251,10 +251,20 @@ def enum_rows(cx, name, variants, body):
             if abody.strip() or k != len(arms) - 1: bad(name, 'wildcard arm must be last and empty', abody)
             for v in vmap: traced.setdefault(v, [])
             continue
-        v, binds = parse_pat(name, pat, vmap)
-        if v in traced: bad(name, 'variant matched twice', pat)
-        traced[v] = simple_traces(name + '::' + v, abody, binds)
-        for f in traced[v]: cx.check_direct(name + '::' + v, f, dict(vmap[v])[f])
+        # or-pattern `Self::A(x) | Self::B(x) => body`: the body applies to every alternative
+        alts, d, st = [], 0, 0
+        for ci, ch in enumerate(pat):
+            if ch in '([{': d += 1
+            elif ch in ')]}': d -= 1
+            elif ch == '|' and d == 0:
+                alts.append(pat[st:ci]); st = ci + 1
+        alts.append(pat[st:])
+        if any(not a.strip() for a in alts): bad(name, 'unknown pattern', pat)
+        for alt in alts:
+            v, binds = parse_pat(name, alt.strip(), vmap)
+            if v in traced: bad(name, 'variant matched twice', pat)
+            traced[v] = simple_traces(name + '::' + v, abody, binds)
+            for f in traced[v]: cx.check_direct(name + '::' + v, f, dict(vmap[v])[f])
     if len(traced) != len(vmap): bad(name, 'variants without arm', ','.join(v for v in vmap if v not in traced))
     return [(name, v, cx.gc_fields(fs), traced[v]) for v, fs in variants]
 
